@@ -104,11 +104,18 @@ Definition q_len_c (s : name) : nat := name_len s + 4.
    written, nothing advanced (the entry check `offset >= len(msg)` of packOctetString on an empty
    string).  Both ask for one octet more than Len() counts: the reason the library sizes its
    array Len()+1 and the sizing premise len_suffices_* is stated with a strict bound. *)
-Inductive step := SBytes (bs : buf) | SName (s : name) (compressible : bool) | SSkip (n : nat) | SPoke0 | SRoom1.
+(* SOver n: n octets that Len() counts and the packer never reaches (NSEC3.len counts the base32
+   TEXT of the next hashed owner, base64 fields count DecodedLen of a padded text, the gateway of
+   IPSECKEY / AMTRELAY counts 4 / 16 octets for an empty address, ...): length only, no effect on
+   packing.  SFail: the field packer refuses the value whatever the buffer (an address that is
+   neither empty, 4 nor 16 octets long). *)
+Inductive step := SBytes (bs : buf) | SName (s : name) (compressible : bool) | SSkip (n : nat) | SPoke0 | SRoom1
+                | SOver (n : nat) | SFail.
 Definition body := list step.
 
 Definition step_len (st : step) : nat :=
-  match st with SBytes bs => length bs | SName s _ => name_len s | SSkip n => n | SPoke0 => 0 | SRoom1 => 0 end.
+  match st with SBytes bs => length bs | SName s _ => name_len s | SSkip n => n | SPoke0 => 0 | SRoom1 => 0
+              | SOver n => n | SFail => 0 end.
 
 Fixpoint plan_steps (ss : body) (off : nat) (cm : option dict) (compress : bool)
          (ws : list (nat * buf)) (need : nat) : option plan :=
@@ -118,6 +125,8 @@ Fixpoint plan_steps (ss : body) (off : nat) (cm : option dict) (compress : bool)
   | SSkip n :: r => plan_steps r (off + n) cm compress ws (Nat.max need (off + n))
   | SPoke0 :: r => plan_steps r off cm compress (ws ++ [(off, [0%N])]) (Nat.max need (off + 1))
   | SRoom1 :: r => plan_steps r off cm compress ws (Nat.max need (off + 1))
+  | SOver _ :: r => plan_steps r off cm compress ws need
+  | SFail :: _ => None
   | SName s cf :: r =>
       match plan_name s off cm (compress && cf) with
       | None => None
